@@ -245,7 +245,13 @@ Section G.
     (forall r0, get_rq st h = Some r0 -> exists buf, rq_buf r0 = Some buf /\ wf_bytes buf = true /\ (20 <= length buf)%nat) ->
     wf_bytes rnd = true -> is_byte (o_addttl (cf_opt cfg)) = true -> is_byte (sc_addttl (srvconf_of cfg s)) = true -> i < 256 ->
     wf_packet b = true /\
-    (nth 0 b 0 = Consts.RAD_Accounting_Request -> acct_request_auth_ok md5 b (sc_secret (srvconf_of cfg s)) = true).
+    (nth 0 b 0 = Consts.RAD_Accounting_Request -> acct_request_auth_ok md5 b (sc_secret (srvconf_of cfg s)) = true) /\
+    (* a forwarded Access-Request (no TTL insertion configured): the authenticator field is the fresh random one,
+       the Message-Authenticator is the first attribute and verifies under the server's secret *)
+    (nth 0 b 0 = Consts.RAD_Access_Request -> o_addttl (cf_opt cfg) = 0 -> sc_addttl (srvconf_of cfg s) = 0 ->
+     firstn 16 (skipn 4 b) = fst (take_rand rnd 16) /\
+     first_is_msgauth b = true /\
+     all_msgauth_ok md5 b (Some (fst (take_rand rnd 16))) (sc_secret (srvconf_of cfg s)) = true).
   Proof.
     intros F Hrwin Hrwout Hrwu Hbuf Wrnd Bg Bp Hi. destruct F.
     destruct (Hbuf _ fw_live) as (buf & Eb & Wb & Lb). rewrite Eb in fw_parsed.
@@ -298,16 +304,36 @@ Section G.
       rewrite A8, (not_bad_ma_ok _ NB), Lna, Wna, Bc. unfold is_byte. replace (i <? 256) with true by (clear - Hi; lia). reflexivity. }
     assert (MAX : Consts.RADMSG2BUF_MAX <= 4096) by (vm_compute; discriminate).
     split; [exact (radmsg2buf_wf md5 md5_len m8 _ b fw_ser OK MAX fw_bytes)|].
-    intro Hc.
     pose proof (radmsg2buf_shape md5 md5_len m8 (sc_secret (srvconf_of cfg s)) OK) as Sh. rewrite fw_bytes in Sh.
-    destruct Sh as (_ & auth' & attrs' & Eb' & _).
-    assert (Cm : m_code m8 = Consts.RAD_Accounting_Request).
-    { rewrite Eb' in Hc. unfold radius_header in Hc. cbn [app nth] in Hc. exact Hc. }
-    assert (SC : signed_code (m_code m8) = true) by (rewrite Cm; vm_compute; reflexivity).
-    pose proof (radmsg2buf_response_auth md5 md5_len m8 _ b fw_ser OK MAX SC fw_bytes) as RA.
-    unfold acct_request_auth_ok.
-    replace (repeat 0 16) with (m_auth m8); [exact RA|].
-    subst m8. cbn [m_auth set_id set_auth set_attrs m_code] in *. subst fw_auth. rewrite Cm. reflexivity.
+    destruct Sh as (_ & auth' & attrs' & Eb' & Lau' & _ & _ & _ & _ & Hsig & _).
+    split.
+    - intro Hc.
+      assert (Cm : m_code m8 = Consts.RAD_Accounting_Request).
+      { rewrite Eb' in Hc. unfold radius_header in Hc. cbn [app nth] in Hc. exact Hc. }
+      assert (SC : signed_code (m_code m8) = true) by (rewrite Cm; vm_compute; reflexivity).
+      pose proof (radmsg2buf_response_auth md5 md5_len m8 _ b fw_ser OK MAX SC fw_bytes) as RA.
+      unfold acct_request_auth_ok.
+      replace (repeat 0 16) with (m_auth m8); [exact RA|].
+      subst m8. cbn [m_auth set_id set_auth set_attrs m_code] in *. subst fw_auth. rewrite Cm. reflexivity.
+    - intros Hc Z1 Z2.
+      assert (Cm : m_code fw_msg = Consts.RAD_Access_Request).
+      { rewrite Eb' in Hc. unfold radius_header in Hc. cbn [app nth] in Hc. exact Hc. }
+      assert (Ea : fw_auth = fst (take_rand rnd 16)).
+      { rewrite fw_newauth, Cm. reflexivity. }
+      assert (E8 : fw_a8 = ensuremsgauthfront fw_a6).
+      { rewrite fw_final. cbv zeta. rewrite Cm. rewrite N.eqb_refl. destruct (fs 10); [reflexivity|].
+        unfold ttl_stage_add. rewrite Z1, Z2. cbn [N.eqb negb orb]. rewrite andb_false_r. reflexivity. }
+      assert (SM : single_ma (m_attrs m8) = true).
+      { subst m8; cbn [m_attrs set_id set_auth set_attrs]; rewrite E8; apply single_ma_front. }
+      destruct (radmsg2buf_msgauth md5 md5_len m8 _ b fw_ser OK MAX SM fw_bytes) as (AM & _ & FM).
+      assert (Am : m_auth m8 = fst (take_rand rnd 16)) by (subst m8; cbn [m_auth set_id set_auth]; exact Ea).
+      split; [|split].
+      + assert (NS : signed_code (m_code m8) = false).
+        { subst m8. cbn [m_code set_id set_auth set_attrs]. rewrite Cm. vm_compute. reflexivity. }
+        rewrite NS in Hsig. rewrite Eb'. unfold radius_header. rewrite <- !app_assoc. cbn [app].
+        rewrite <- Am, <- Hsig. apply firstn_app_exact_l0; [apply be_encode_length | exact Lau'].
+      + subst m8. cbn [m_attrs set_id set_auth set_attrs] in FM. rewrite E8 in FM. unfold ensuremsgauthfront in FM. apply FM. reflexivity.
+      + rewrite <- Am. exact AM.
   Qed.
 
   Theorem radsrv_emits_wf_rw st h c now rnd s i b :
@@ -317,7 +343,11 @@ Section G.
     (forall r0, get_rq st h = Some r0 -> exists buf, rq_buf r0 = Some buf /\ wf_bytes buf = true /\ (20 <= length buf)%nat) ->
     wf_bytes rnd = true -> is_byte (o_addttl (cf_opt cfg)) = true -> is_byte (sc_addttl (srvconf_of cfg s)) = true -> i < 256 ->
     wf_packet b = true /\
-    (nth 0 b 0 = Consts.RAD_Accounting_Request -> acct_request_auth_ok md5 b (sc_secret (srvconf_of cfg s)) = true).
+    (nth 0 b 0 = Consts.RAD_Accounting_Request -> acct_request_auth_ok md5 b (sc_secret (srvconf_of cfg s)) = true) /\
+    (nth 0 b 0 = Consts.RAD_Access_Request -> o_addttl (cf_opt cfg) = 0 -> sc_addttl (srvconf_of cfg s) = 0 ->
+     firstn 16 (skipn 4 b) = fst (take_rand rnd 16) /\
+     first_is_msgauth b = true /\
+     all_msgauth_ok md5 b (Some (fst (take_rand rnd 16))) (sc_secret (srvconf_of cfg s)) = true).
   Proof. intro H. apply forwarded_wf. apply (radsrv_forward md5 rx cfg fs _ _ _ _ _ _ _ _ H). Qed.
 End G.
 
